@@ -9,7 +9,10 @@ def run(tier, seed):
     res.add(run_functions(["CParser._coord", "CParser._tok_coord", "CParser._parse_error"], "C11/smt", tier))
     try:
         import contracts.lexer as LX
-        res.add(run_functions(LX.C11_FUNCTIONS, "C11/smt", tier))
+        from props import lexreplay
+        res.add(lexreplay.attach(run_functions(LX.C11_FUNCTIONS, "C11/smt", tier)))
     except ImportError:
         res.assumptions.append("lexer line/column contracts not built")
+    from props import tables
+    res.add(tables.error_channel_obligations("C11"))
     return res
